@@ -2,9 +2,15 @@ package fw
 
 import (
 	"fmt"
-	"strings"
 	"time"
+	"unicode"
 )
+
+func upperFirst(s string) string {
+	r := []rune(s)
+	r[0] = unicode.ToUpper(r[0])
+	return string(r)
+}
 
 type c12Field struct {
 	name     string
@@ -33,7 +39,7 @@ func c12StructProgram(id string, pal []c12Field, prevented uint, pkg int) *Progr
 	for i, f := range pal {
 		name := f.name
 		if pkg == 1 {
-			name = strings.ToUpper(name[:1]) + name[1:]
+			name = upperFirst(name)
 			if f.name == "foo" || f.name == "x1" {
 				name = "Lower" + name
 			}
@@ -114,7 +120,7 @@ func c12FieldsProgram(id string, pal []c12Field, parentPtr bool, parentSrc strin
 	for i, f := range pal {
 		name := f.name
 		if pkg == 1 {
-			name = strings.ToUpper(name[:1]) + name[1:]
+			name = upperFirst(name)
 			if f.name == "foo" || f.name == "x1" {
 				name = "Lower" + name
 			}
